@@ -161,6 +161,9 @@ def reformat_files(
         return
 
     # Multiple files case
+    if inplace and "-" in files:
+        # Check before processing anything, so no file is rewritten when the arguments are invalid.
+        raise ValueError("Cannot use `inplace` with stdin")
     if not inplace and output and output != "-":
         raise ValueError(
             "Cannot specify output file when processing multiple files (use --inplace instead)"
